@@ -11,7 +11,9 @@ TRANSLATOR = os.path.join(vlib.ROOT, "translators", "tr_grammar.py")
 ORDER = [
     "Parse/Tokens.v", "Parse/Gen_Prec.v", "Parse/Gen_Names.v", "Parse/Lexer.v", "Parse/ParseModel.v",
     "Parse/PrintModel.v", "Parse/LexProofs.v", "Parse/ParseSpec.v", "Parse/ParseProofs.v", "Parse/ParseSound.v",
-    "Parse/NumericProofs.v", "Parse/StateProofs.v", "Parse/PrintProofs.v",
+    "Parse/ParseMono.v", "Parse/ParseComplete.v",
+    "Parse/NumericProofs.v", "Parse/StateProofs.v", "Parse/PrintProofs.v", "Parse/PrintWf.v",
+    "Parse/PrintParse.v", "Parse/PrintParse2.v",
 ]
 
 
@@ -56,10 +58,18 @@ def build_coq(ctx, upto=None):
 
 def prepare(ctx):
     """translator + Coq build + driver + model; returns (drv, model)"""
+    import time
+    t = [time.time()]
     run_translator(ctx)
+    t.append(time.time())
     build_coq(ctx)
+    t.append(time.time())
     drv = ctx.build_driver("parse_driver")
+    t.append(time.time())
     model = ctx.build_model("Parse", "Parse/Extract.v", "parse_main.ml", "semodel", extra_ml=["expr_io.ml"])
+    t.append(time.time())
+    ctx.cov["prepare_seconds"] = dict(zip(["translator", "coq", "driver", "model"],
+                                          [round(b - a, 1) for a, b in zip(t, t[1:])]))
     return drv, model
 
 
